@@ -615,6 +615,59 @@ def term_pair(c1, o1, c2, o2):
                                             nat(len(c2["numbers"])), pbc_lit(c2["pbc"]), e_lit(o2["E"]))
 
 
+PREAMBLE_COMPOSED = ("From Coq Require Import List ZArith QArith Bool.\nImport ListNotations.\n"
+                     "From MV Require Import Base.ZV3 Geometry.Extend Geometry.Dimensionality Geometry.DimFromTensor.\n")
+
+
+def composed_term(case, r):
+    """The COMPOSED Coq model of get_dimensionality -- the C10 model of get_displacement_tensor on the wrapped structure and on
+    its 2x repetition (tab_1x / tab_2x of Geometry/DimFromTensor.v) followed by the arithmetic of the C09 mirror -- evaluated on the
+    grid input itself (no oracle in between) and compared with the implementation's answer.  By C09_get_dimensionality_on_C10_tables
+    that value is the answer of the discrete mirror on the true bonded network.  Returns (cost estimate, term) or None."""
+    if isinstance(case["radii"], str):
+        return None
+    P = grid_ints(case["positions"])
+    Cc = grid_ints(case["cell"])
+    if P is None or Cc is None:
+        return None
+    rad = [Fraction(x) * G for x in case["radii"]]
+    thr = Fraction(float(case["thr"])) * G
+    if any(x.denominator != 1 for x in rad) or thr.denominator != 1:
+        return None
+    a, b, c = [[int(x) for x in row] for row in Cc.tolist()]
+
+    def cross(u, v):
+        return [u[1] * v[2] - u[2] * v[1], u[2] * v[0] - u[0] * v[2], u[0] * v[1] - u[1] * v[0]]
+
+    def dot(u, v):
+        return u[0] * v[0] + u[1] * v[1] + u[2] * v[2]
+    V = dot(a, cross(b, c))
+    if V == 0:
+        return None
+    nrm = [cross(b, c), cross(c, a), cross(a, b)]
+    pos = []
+    for q in P.tolist():
+        q = [int(x) for x in q]
+        for k, cv in enumerate((a, b, c)):
+            if case["pbc"][k]:
+                w = dot(q, nrm[k]) // V            # exact floor of the scaled coordinate
+                q = [q[m] - w * cv[m] for m in range(3)]
+        pos.append(q)
+
+    def v3(u):
+        return "(mk3 (%d) (%d) (%d))" % tuple(u)
+    pbc = "(mkP %s %s %s)" % tuple("true" if x else "false" for x in case["pbc"])
+    cell = " ".join(v3(u) for u in (a, b, c))
+    posl = "[%s]" % "; ".join(v3(u) for u in pos)
+    radf = "(fun i => nth i [%s] 0%%Z)" % "; ".join("(%d)%%Z" % int(x) for x in rad)
+    n = len(pos)
+    box = case["_orc"]["info"]["box"]
+    cost = n * 2 ** sum(1 for x in case["pbc"] if x) * (2 * box[0] + 1) * (2 * box[1] + 1) * (2 * box[2] + 1)
+    t = ("optZ_eqb (get_dim_metric %s (p_of %s) %s (%d)%%Z (tab_1x (1#4) %s %s %s %s (%d)%%Z) (tab_2x (1#4) %s %s %s %s (%d)%%Z)) %s"
+         % (nat(n), pbc, radf, int(thr), cell, pbc, posl, radf, int(thr), cell, pbc, posl, radf, int(thr), optz(r.get("dim"))))
+    return cost, t
+
+
 # ------------------------------------------------------------------------------------------------
 def canon_hash(case):
     return C.sha(json.dumps(strip(dict(case, id=0)), sort_keys=True))[:16]
@@ -797,6 +850,24 @@ def run(ctx):
     t0 = time.time()
     coq_fail, coq_err = C.coq_case_files("C09", PREAMBLE, terms, per_file=max(8, min(250, len(terms) // (3 * C.NCPU) + 1)))
     C.log("[c09] Coq evaluation of %d terms %.1fs; failing %s errors %d" % (len(terms), time.time() - t0, coq_fail[:10], len(coq_err)))
+    # ---- the composed model (C10 tables + C09 arithmetic) evaluated on the inputs themselves ---------------------------------
+    t0 = time.time()
+    cterms = []
+    for c in cases:
+        r = res.get(c["id"], {})
+        if "error" in r or c["_orc"]["info"]["near_tie"] or c["_orc"]["mismatch"] or len(c["numbers"]) > 4 or c["id"] in skip:
+            continue
+        ct = composed_term(c, r)
+        if ct is None or ct[0] > 150 or float(c["thr"]) + 2 * max(radii_floats(c)) <= 0:
+            continue
+        cterms.append((c["id"], ct[1]))
+        if len(cterms) >= (48 if quick else 400):
+            break
+    comp_fail, comp_err = C.coq_case_files("C09comp", PREAMBLE_COMPOSED, cterms, per_file=4, timeout=1500) if cterms else ([], [])
+    dist["composed_model_cases(C10 tables + C09 arithmetic evaluated in Coq on the grid input, compared with the implementation)"] = len(cterms)
+    C.log("[c09] composed model on %d inputs %.1fs; failing %s errors %d" % (len(cterms), time.time() - t0, comp_fail[:10], len(comp_err)))
+    coq_fail = list(coq_fail) + list(comp_fail)
+    coq_err = list(coq_err) + list(comp_err)
 
     # ---- bookkeeping --------------------------------------------------------------------------------
     nontrivial = set()
